@@ -114,6 +114,29 @@ func (o sop) apply(f *excelize.File, sheet string, styles []int) (*excelize.File
 		a, _ := excelize.CoordinatesToCellName(o.Col, o.Row)
 		b, _ := excelize.CoordinatesToCellName(o.Col2, o.Row2)
 		err = f.MergeCell(sheet, a, b)
+	case "H":
+		err = f.SetRowHeight(sheet, o.Row, o.F)
+	case "V":
+		err = f.SetRowVisible(sheet, o.Row, o.B)
+	case "CW":
+		cn, _ := excelize.ColumnNumberToName(o.Col)
+		err = f.SetColWidth(sheet, cn, cn, o.F)
+	case "CS":
+		cn, _ := excelize.ColumnNumberToName(o.Col)
+		err = f.SetColStyle(sheet, cn, styles[o.St])
+	case "CV":
+		cn, _ := excelize.ColumnNumberToName(o.Col)
+		err = f.SetColVisible(sheet, cn, o.B)
+	case "L":
+		if o.B {
+			err = f.SetCellHyperLink(sheet, o.cell(), o.S, "External")
+		} else {
+			err = f.SetCellHyperLink(sheet, o.cell(), "Sheet1!A1", "Location")
+		}
+	case "T":
+		err = f.SetCellRichText(sheet, o.cell(), []excelize.RichTextRun{{Text: o.S, Font: &excelize.Font{Bold: true}}, {Text: " tail"}})
+	case "D":
+		err = f.SetDefinedName(&excelize.DefinedName{Name: o.S, RefersTo: sheet + "!$A$1:$B$2", Scope: sheet})
 	case "W":
 		_, err = f.WriteToBuffer()
 	case "O":
